@@ -267,6 +267,11 @@ static void w_audit(void)
     check_accounting("state audit");
 }
 
+static int arr_sym(uintptr_t v)
+{
+    if (v >= (uintptr_t)EXT && v < (uintptr_t)EXT + sizeof EXT) { KB_C('E'); KB_U((unsigned long)(v - (uintptr_t)EXT)); return 1; }
+    return 0;
+}
 static void w_canon(void)
 {
     int a, cls[NOBJ], ncls = 0, k;
@@ -275,7 +280,21 @@ static void w_canon(void)
         const void *p = A[a].ptr.data.ptr;
         KB_C('A'); KB_C(A[a].ptr.data.self == (void *)&A[a].ptr.data ? 's' : 'X');
         if (p == NULL) KB_C('0');
-        else { for (k = 0; k < ncls; k++) if (ptrs[k] == p) break; if (k == ncls) ptrs[ncls++] = p; cls[a] = k; KB_U((unsigned)k); }
+        else {
+            for (k = 0; k < ncls; k++) if (ptrs[k] == p) break;
+            if (k == ncls) {
+                /* first sight of this descriptor: the library's bookkeeping block (reference counters...) and the buffer header, addresses symbolised */
+                shim_blk *bb = shim_find(p);
+                ptrs[ncls++] = p;
+                if (bb && bb->p == p) {
+                    const void *ra;
+                    KB_C('{'); KB_MEM(bb->p, bb->sz, arr_sym); KB_C('}');
+                    ra = cstl_shared_ptr_get_const(&A[a].ptr);
+                    if (ra && shim_find(ra) && shim_find(ra)->sz >= 24) { KB_C('<'); KB_MEM(ra, 24, arr_sym); KB_C('>'); }
+                } else KB_C('!');
+            }
+            cls[a] = k; KB_U((unsigned)k);
+        }
         KB_C('+'); KB_U(A[a].off); KB_C('#'); KB_U(A[a].len);
         if (p != NULL && A[a].len > 0 && A[a].len == O[a].len) {
             /* what the descriptor says (element size, base): distance of the first and last visible element from data() */
